@@ -263,7 +263,7 @@ def _val(rng):
 def gen(rng, tier):
     quick = tier == "quick"
     cases = []
-    for _ in range(170 if quick else 5000):
+    for _ in range(170 if quick else 2000):
         keys = rng.sample(KEYS, rng.choice([1, 2, 2, 3]))
         if rng.random() < 0.12:
             keys[0] = b""                      # the empty key is a key like any other
@@ -278,7 +278,7 @@ def gen(rng, tier):
                 ops.append(["set", H(k), H(_val(rng))])
                 live.add(k)
         cases.append({"k": "hist", "ops": ops})
-    for _ in range(120 if quick else 4000):
+    for _ in range(120 if quick else 1500):
         files = []
         for k in rng.sample(KEYS, rng.choice([1, 2, 3])):
             e = [H(k)] + [H(_val(rng)) if rng.random() < 0.5 else None for _ in range(3)]
